@@ -147,6 +147,9 @@ class Plan:
         self.n = len(peers)
         self.skip = None
         self.parse_raises = None
+        # how the peers' bytes reach recv(): message by message, or as one TCP-like byte stream in which a read may run
+        # past the end of a message (decided by the case's content so that a case always replays the same way)
+        self.stream = bool(peers) and bool(peers[0]) and (int(peers[0][0][1]) >> 20) % 2 == 1
         probe = p2p.Node()
         self.handled_cmds = {b"version", b"ping"} | {c for c in probe._registered_commands_to_handle if isinstance(c, bytes)}
         self.wire = []  # per peer: serialised messages
@@ -187,7 +190,7 @@ class Plan:
         if self._serial is None:
             sigs = set()
             for order in itertools.permutations(range(self.n)):
-                ex = S.run_node(p2p, self.wire, (), list(order))
+                ex = S.run_node(p2p, self.wire, (), list(order), stream=self.stream)
                 sigs.update(sig for sig, _ in judge(self, ex))
             self._serial = sigs
         return self._serial
@@ -418,7 +421,7 @@ def _norm_peers(peers):
 
 
 def run_one(p2p, plan, schedule, preempt=None, lines=False):
-    ex = S.run_node(p2p, plan.wire, schedule, preempt=preempt, lines=lines)
+    ex = S.run_node(p2p, plan.wire, schedule, preempt=preempt, lines=lines, stream=plan.stream)
     labels = features(ex.sched.trace, plan.handled)
     fails = judge(plan, ex)
     if fails:
@@ -431,6 +434,10 @@ def _case_labels(peers):
     out = [f"case:peers-{len(peers)}", "case:msgs-" + "x".join(str(len(m)) for m in peers)]
     for k in sorted({k for m in peers for k, _ in m}):
         out.append("kind:" + k)
+    if peers and peers[0] and (int(peers[0][0][1]) >> 20) % 2 == 1:
+        out.append("nt:case/byte-stream-delivery")
+    else:
+        out.append("case/per-message-delivery")
     for m in peers:
         for k, salt in m:
             if k == "unknown" and (salt >> 12) % 9 in (4, 5):
@@ -761,7 +768,7 @@ def targets(tier):
             strategy=lambda tier: sampled_cases(),
             budget={"quick": 4000, "thorough": 50000},
             required=[NT, "nt:exec/library-logging-at-its-own-level", "case:peers-2", "case:peers-3", "nt:case/addr-boundary-count", "nt:case/inv-boundary-count",
-                      "nt:case/addr-1000-entries", "nt:case/unknown-command-fills-12-bytes"] + ["kind:" + k for k in KINDS],
+                      "nt:case/addr-1000-entries", "nt:case/unknown-command-fills-12-bytes", "nt:case/byte-stream-delivery", "case/per-message-delivery"] + ["kind:" + k for k in KINDS],
         ),
         Target(
             "walks-3x2",
